@@ -83,4 +83,11 @@ CHECKS.update({
             "note": "Trusted: the harness' read-back of contexts/bindings through get_program/get_param. Thread schedules are sampled by the OS, not enumerated.",
             "technique": "TLA+ history machine (spec/Api.tla): TLC-generated histories replayed into the real API (spec/Gen_Api.tla) and recorded histories validated by TLC (spec/Trace_Api.tla)"},
 })
+CHECKS.update({
+    "C19": {"text": "Model: the variant tables of the derived (de)serializers (written index = position among all variants, read index = position among the non-skipped ones) are checked by TLC to agree on every serializable variant "
+                    "(the table before the repair is kept as the counterexample it is). Conformance: constant programs holding every value type and every instruction plus generated programs are round-tripped through JSON and bincode and executed "
+                    "under three bindings: both steps succeed, source and parameters are unchanged, same value or same error variant; the specification checks that every variant occurred.",
+            "note": "Trusted: serde_json / bincode as the formats in use. Byte-level encodings are not modelled. Sub-millisecond time constants are outside the property (millisecond resolution is the contract).",
+            "technique": "TLA+ model of serde's variant numbering (spec/Ser.tla, MC_Ser) + TLC validation of recorded round trips with a variant-coverage obligation (spec/Trace_Ser.tla)"},
+})
 NOT_YET = {}
